@@ -70,6 +70,23 @@ func genC01(seed uint64, tier string) Scenario {
 		}
 		s.Clients = append(s.Clients, cs)
 	}
+	// one handler blocks until the world is quiet: the other connections must not care
+	if len(s.Clients) >= 2 && g.Pct(10) {
+		cids := make([]int, 0, len(s.Scripts))
+		for c := range s.Scripts {
+			cids = append(cids, c)
+		}
+		sortInts(cids)
+		if len(cids) > 0 {
+			c := cids[g.IntN(len(cids))]
+			sc := s.Scripts[c]
+			sc.Actions = append([]Action{{Op: "hold"}}, sc.Actions...)
+			s.Scripts[c] = sc
+			for i := range s.Clients {
+				s.Clients[i].QuietPoints = 2
+			}
+		}
+	}
 	_ = fmt.Sprint
 	return s
 }
